@@ -200,7 +200,7 @@ pub fn ip6(h: &Ip6H, payload: &[u8]) -> Vec<u8> {
 
 /// Consistent IP packet (either family) inside an Ethernet frame.
 pub fn ip_frame(net: &Net, proto: u8, l4: &[u8]) -> Vec<u8> {
-    match (&net.cip, &net.sip) {
+    let mut f = match (&net.cip, &net.sip) {
         (IpAddr::V4(c), IpAddr::V4(s)) => {
             let h = Ip4H::new(c.octets(), s.octets(), proto);
             eth(&net.dmac, &net.cmac, ET_V4, &ip4(&h, l4))
@@ -210,7 +210,13 @@ pub fn ip_frame(net: &Net, proto: u8, l4: &[u8]) -> Vec<u8> {
             eth(&net.dmac, &net.cmac, ET_V6, &ip6(&h, l4))
         }
         _ => panic!("harness: mixed IP families in Net"),
-    }
+    };
+    AMBIENT_TWEAK.with(|a| {
+        if let Some(t) = a.borrow().as_ref() {
+            apply_ip_tweak(&mut f, t);
+        }
+    });
+    f
 }
 
 #[derive(Clone, Debug, Serialize, Deserialize, PartialEq, Eq, Hash)]
@@ -753,6 +759,22 @@ pub struct IpTweak {
     pub id: u16,
     pub flags: u8,
     pub ttl: u8,
+    /// TCP segments: the window field (what the peer says it can receive — not a limit on what a
+    /// stateless responder sends) and the urgent pointer
+    #[serde(default)]
+    pub tcp_window: Option<u16>,
+    #[serde(default)]
+    pub tcp_urg: Option<u16>,
+}
+
+thread_local! {
+    static AMBIENT_TWEAK: std::cell::RefCell<Option<IpTweak>> = std::cell::RefCell::new(None);
+}
+
+/// header variation applied to every consistent IP frame built through `ip_frame` on this thread
+/// until cleared (checks set it from their case data at the top of a case and clear it at the end)
+pub fn set_ambient_tweak(t: Option<IpTweak>) {
+    AMBIENT_TWEAK.with(|a| *a.borrow_mut() = t);
 }
 
 /// apply to a consistent Ethernet/IPv4 or Ethernet/IPv6 frame (no-op otherwise); the IPv4 header
@@ -777,6 +799,9 @@ pub fn apply_ip_tweak(f: &mut Vec<u8>, t: &IpTweak) -> bool {
         let c = inet_csum(&f[14..14 + ihl], 0);
         f[24] = (c >> 8) as u8;
         f[25] = c as u8;
+        if f[23] == P_TCP && be16(f, 16) as usize == f.len() - 14 {
+            tweak_tcp(f, 14 + ihl, t);
+        }
         true
     } else if et == ET_V6 && f.len() >= 14 + 40 && f[14] >> 4 == 6 {
         f[14] = 0x60 | (t.tos >> 4);
@@ -787,9 +812,38 @@ pub fn apply_ip_tweak(f: &mut Vec<u8>, t: &IpTweak) -> bool {
         if !nd {
             f[21] = t.ttl.max(1);
         }
+        if f[20] == P_TCP && be16(f, 18) as usize + 54 == f.len() {
+            tweak_tcp(f, 54, t);
+        }
         true
     } else {
         false
+    }
+}
+
+fn tweak_tcp(f: &mut Vec<u8>, off: usize, t: &IpTweak) {
+    if (t.tcp_window.is_none() && t.tcp_urg.is_none()) || f.len() < off + 20 {
+        return;
+    }
+    if let Some(w) = t.tcp_window {
+        f[off + 14] = (w >> 8) as u8;
+        f[off + 15] = w as u8;
+    }
+    if let Some(u) = t.tcp_urg {
+        f[off + 18] = (u >> 8) as u8;
+        f[off + 19] = u as u8;
+    }
+    let v = match view_request(f) {
+        Some(v) => v,
+        None => return,
+    };
+    if let Some(ip) = v.ip {
+        f[off + 16] = 0;
+        f[off + 17] = 0;
+        let seg = f[off..].to_vec();
+        let c = inet_csum(&seg, pseudo(&ip.src, &ip.dst, P_TCP, seg.len()));
+        f[off + 16] = (c >> 8) as u8;
+        f[off + 17] = c as u8;
     }
 }
 
@@ -899,4 +953,20 @@ pub fn vlan_tagged(f: &[u8], tags: &[(u16, u16)]) -> Vec<u8> {
     }
     v.extend_from_slice(&f[12..]);
     v
+}
+
+/// sets the ambient header variation for the lifetime of the guard
+pub struct AmbientGuard;
+
+impl AmbientGuard {
+    pub fn set(t: &Option<IpTweak>) -> AmbientGuard {
+        set_ambient_tweak(t.clone());
+        AmbientGuard
+    }
+}
+
+impl Drop for AmbientGuard {
+    fn drop(&mut self) {
+        set_ambient_tweak(None);
+    }
 }
